@@ -89,11 +89,11 @@ def units(tier, seed):
             us.append(('hist', a, b, maxlen))
     us.append(('short',))
     us.append(('fnvar',))
-    for i in range(8 if tier == 'quick' else 48):
+    for i in range(8 if tier == 'quick' else 256):
         us.append(('randhist', i))
-    for i in range(16 if tier == 'quick' else 96):
+    for i in range(16 if tier == 'quick' else 640):
         us.append(('programs', i))
-    for i in range(6 if tier == 'quick' else 32):
+    for i in range(6 if tier == 'quick' else 256):
         us.append(('rebind', i))
     us.append(('elements', 3 if tier == 'quick' else 4))
     return us
